@@ -39,7 +39,7 @@ func (Sim) Assumptions() []string {
 		"the justified set J is the closure of the root location under a set-valued resolution that contains both the loader's documented behaviour and RFC 3986 for every spelling (relative: directory of the containing document; absolute path: both the local file and the same-host URL; scheme/host present: the reference itself); any \"$ref\" string anywhere in a document's true content justifies its targets",
 		"reads are observed at the storage seam; with the default reader, reads answered by the library's process-wide URI cache are not observable (so observed reads are a subset of attempted ones; every location carries a per-run marker so the cache never links two runs)",
 		"generator restrictions: no query strings in references; no dot-segments climbing above the storage root except in canaries; for roots loaded from memory no document refers back to the root's storage copy",
-		"C02 is claimed for two clauses only: a read that fails and never succeeds for that location makes the load fail; loading terminates within a read budget and an instrumentation-step budget",
+		"C02 is claimed for three clauses only: a read that fails and never succeeds for that location makes the load fail; a fragment reference in the root, at a position the loader resolves, whose existing target document lacks the fragment makes the load fail; loading terminates within a read budget and an instrumentation-step budget",
 	}
 }
 
@@ -388,6 +388,41 @@ func (Sim) Run(raw json.RawMessage, prop string, keep bool) (res simfw.Result) {
 				}
 			}
 		}
+		// ---- C02 clause: a fragment the target document lacks makes the load fail ----
+		if abort == "" && li == 0 {
+			for _, ref := range s.RootFragRefs {
+				u, perr := url.Parse(ref)
+				if perr != nil || u.Fragment == "" {
+					continue
+				}
+				// the reference must still be in the root (the minimiser may have cut it out)
+				present := false
+				for _, r := range rootRefs {
+					if r == ref {
+						present = true
+					}
+				}
+				if !present {
+					continue
+				}
+				missing, known := false, false
+				for _, t := range resolveSet(rootBase, ref) {
+					if c, ok := st.Files[t]; ok {
+						known = true
+						var doc any
+						if json.Unmarshal(c, &doc) == nil && !pointerExists(doc, u.Fragment) {
+							missing = true
+						}
+					}
+				}
+				if known && missing {
+					res.Probe("dangling-fragment-in-root")
+					if lerr == nil {
+						res.Violate("C02", "missing-fragment", "C02/"+sig("load-succeeds-despite-missing-fragment"), fmt.Sprintf("the root refers to %q at a position the loader resolves; the target document exists but has no such fragment, yet loading returned no error", ref))
+					}
+				}
+			}
+		}
 		if lerr == nil {
 			res.Probe("load-ok")
 		} else {
@@ -552,6 +587,38 @@ func emptyPathItem(content []byte) bool {
 	}
 	for _, k := range []string{"summary", "description", "get", "put", "post", "delete", "options", "head", "patch", "trace", "servers", "parameters", "$ref"} {
 		if _, ok := m[k]; ok {
+			return false
+		}
+	}
+	return true
+}
+
+// pointerExists evaluates a JSON pointer (RFC 6901) over decoded JSON.
+func pointerExists(doc any, pointer string) bool {
+	if pointer == "" || pointer == "/" {
+		return true
+	}
+	if !strings.HasPrefix(pointer, "/") {
+		return false
+	}
+	cur := doc
+	for _, tok := range strings.Split(pointer[1:], "/") {
+		tok = strings.ReplaceAll(strings.ReplaceAll(tok, "~1", "/"), "~0", "~")
+		switch v := cur.(type) {
+		case map[string]any:
+			nxt, ok := v[tok]
+			if !ok {
+				return false
+			}
+			cur = nxt
+		case []any:
+			idx := -1
+			fmt.Sscanf(tok, "%d", &idx)
+			if idx < 0 || idx >= len(v) {
+				return false
+			}
+			cur = v[idx]
+		default:
 			return false
 		}
 	}
